@@ -193,4 +193,8 @@ theorem ranked_of_mirror (s : Schema) (rank : String → Nat) (wf : WF s rank) (
       unfold fuelOf at hb
       omega
 
+theorem sameHierarchy_ofGen (num : String → Nat) (gd : List DEntity) : SameHierarchy num gd (ofGen num gd) := by
+  unfold SameHierarchy ofGen
+  simp [List.map_map, Function.comp_def, ofGenEntity]
+
 end StepModel.LazyRefs
